@@ -288,6 +288,84 @@ func (check typecheck) binaryExpr(n *node) error {
 	return check.op(binaryOpPredicates, a, n, c0, t0)
 }
 
+// constToken gives the token of the arithmetic operators on constants.
+var constToken = map[action]token.Token{
+	aAdd:    token.ADD,
+	aSub:    token.SUB,
+	aMul:    token.MUL,
+	aQuo:    token.QUO,
+	aRem:    token.REM,
+	aAnd:    token.AND,
+	aOr:     token.OR,
+	aXor:    token.XOR,
+	aAndNot: token.AND_NOT,
+	aShl:    token.SHL,
+	aShr:    token.SHR,
+	aNeg:    token.SUB,
+	aPos:    token.ADD,
+	aBitNot: token.XOR,
+}
+
+// constExpr checks that the exact value of the constant arithmetic expression n,
+// whose operands are constants, is representable in the type of n if n is typed.
+func (check typecheck) constExpr(n *node) error {
+	tok, ok := constToken[n.action]
+	t := n.typ.TypeOf()
+	if !ok || n.typ.untyped || !isNumber(t) {
+		return nil
+	}
+	x := constantOf(n.child[0].rval)
+	if x == nil || x.Kind() == constant.Unknown {
+		return nil
+	}
+	if isInt(t) {
+		if x = constant.ToInt(x); x.Kind() != constant.Int {
+			return nil
+		}
+	}
+
+	var v constant.Value
+	switch {
+	case n.kind == unaryExpr:
+		var prec uint
+		if isUint(t) {
+			prec = uint(t.Bits())
+		}
+		v = constant.UnaryOp(tok, x, prec)
+	case isShiftAction(n.action):
+		s, exact := constant.Uint64Val(constant.ToInt(constantOf(n.child[1].rval)))
+		if !exact {
+			return nil
+		}
+		if s > uint64(t.Bits()) {
+			s = uint64(t.Bits()) // Enough to shift every bit of the operand out.
+		}
+		v = constant.Shift(x, tok, uint(s))
+	default:
+		y := constantOf(n.child[1].rval)
+		if y == nil || y.Kind() == constant.Unknown {
+			return nil
+		}
+		if isInt(t) {
+			if y = constant.ToInt(y); y.Kind() != constant.Int {
+				return nil
+			}
+			if tok == token.QUO {
+				tok = token.QUO_ASSIGN // Integer division.
+			}
+		}
+		if (tok == token.QUO || tok == token.QUO_ASSIGN || tok == token.REM) && constant.Sign(y) == 0 {
+			return n.cfgErrorf("invalid operation: division by zero")
+		}
+		v = constant.BinaryOp(x, tok, y)
+	}
+
+	if !representableConst(v, t) {
+		return n.cfgErrorf("constant %s overflows %s", v.ExactString(), n.typ.id())
+	}
+	return nil
+}
+
 func zeroConst(n *node) bool {
 	return n.typ.untyped && constant.Sign(n.rval.Interface().(constant.Value)) == 0
 }
